@@ -225,8 +225,11 @@ class Interp(Exec):
     def st_While(self, s):
         self.loop(s, None, None)
 
+    def iter_view(self, it):
+        return it
+
     def st_For(self, s):
-        it = self.ev(s.iter)
+        it = self.iter_view(self.ev(s.iter))
         if isinstance(it, VTuple) and len(it.items) == 2 and isinstance(it.items[0], VBuiltin) and it.items[0].name == "enumerate":
             self.enumerating = True
             try:
